@@ -39,11 +39,17 @@ class Scratch:
             log('kept scratch', self.dir)
 
 
-def run(cmd, cwd=None, env=None, timeout=None, stdin=None):
+def _limit_mem():
+    import resource
+    lim = int(os.environ.get('VERIF_TOOL_MEM_GB', '8')) << 30
+    resource.setrlimit(resource.RLIMIT_AS, (lim, lim))
+
+
+def run(cmd, cwd=None, env=None, timeout=None, stdin=None, limit_mem=False):
     t0 = time.time()
     try:
         p = subprocess.run(cmd, cwd=cwd, env=env or GOENV, timeout=timeout, input=stdin,
-                           stdout=subprocess.PIPE, stderr=subprocess.PIPE)
+                           stdout=subprocess.PIPE, stderr=subprocess.PIPE, preexec_fn=_limit_mem if limit_mem else None)
         return p.returncode, p.stdout.decode('utf-8', 'replace'), p.stderr.decode('utf-8', 'replace'), time.time() - t0
     except subprocess.TimeoutExpired as e:
         return -9, (e.stdout or b'').decode('utf-8', 'replace'), (e.stderr or b'').decode('utf-8', 'replace'), time.time() - t0
@@ -122,7 +128,7 @@ def export_programs(sc, name, family, extends='WireFamilies', timeout=1800):
     return progs
 
 
-def compute_expect(sc, name, progs, extends='WireFamilies', timeout=3600, par=None):
+def compute_expect(sc, name, progs, extends='WireFamilies', timeout=3600, par=None, caseop='Case'):
     """Pass 2: TLC evaluates WireSem on each program (Case(P)); chunks run as parallel TLC processes."""
     if not progs:
         return []
@@ -138,7 +144,7 @@ def compute_expect(sc, name, progs, extends='WireFamilies', timeout=3600, par=No
             for p in chunks[ix]:
                 f.write(json.dumps(p) + '\n')
         mod = ('---- MODULE %s ----\nEXTENDS %s, Json\nProgs == ndJsonDeserialize("%s")\n'
-               'ASSUME ndJsonSerialize("%s", [i \\in DOMAIN Progs |-> Case(Progs[i])])\n====\n') % (nm, extends, inp, out)
+               'ASSUME ndJsonSerialize("%s", [i \\in DOMAIN Progs |-> %s(Progs[i])])\n====\n') % (nm, extends, inp, out, caseop)
         rc, o, dt = tlc(sc, nm, mod, '', workers=1, timeout=timeout)
         if rc != 0 or not os.path.exists(out):
             raise Broken('TLC evaluation of WireSem failed (rc=%s): %s' % (rc, o[-3000:]))
@@ -155,7 +161,7 @@ def compute_expect(sc, name, progs, extends='WireFamilies', timeout=3600, par=No
     return cases
 
 
-def export_cases(sc, name, family_expr, extends='WireFamilies', timeout=1800, pre_sample=None, seed=1):
+def export_cases(sc, name, family_expr, extends='WireFamilies', timeout=1800, pre_sample=None, seed=1, caseop='Case'):
     """Enumerate a family with TLC, optionally sample programs by seed, evaluate WireSem on them."""
     progs = export_programs(sc, name, family_expr, extends, timeout)
     total = len(progs)
@@ -163,7 +169,7 @@ def export_cases(sc, name, family_expr, extends='WireFamilies', timeout=1800, pr
         rnd = random.Random(seed)
         progs = rnd.sample(progs, pre_sample)
         progs.sort(key=lambda p: p['key'])
-    cases = compute_expect(sc, name + 'x', progs, extends, timeout)
+    cases = compute_expect(sc, name + 'x', progs, extends, timeout, caseop=caseop)
     return cases, total
 
 
@@ -264,14 +270,64 @@ def split_blocks(stderr):
     return blocks
 
 
+def parse_show(rc_case, stdout):
+    """`wire show` stdout -> the listing of this case's sets and injectors in abstract terms."""
+    paths = {rc_case.pkgpath(p): p for p in rc_case.pkgs()}
+
+    def abst(t):
+        t = t.strip()
+        for path in sorted(paths, key=len, reverse=True):
+            t = t.replace(path + '.', '')
+        return t
+    sets, injectors = [], []
+    cur = None
+    grp = None
+    mode = None
+    for line in stdout.splitlines():
+        m = re.match(r'^"([^"]+)"\.(\w+)$', line)
+        if m:
+            cur = None
+            mode = 'set'
+            if m.group(1) in paths:
+                cur = {'id': paths[m.group(1)] + '.' + m.group(2), 'includes': [], 'groups': []}
+                sets.append(cur)
+            continue
+        if line.strip() == 'Injectors:':
+            mode = 'inj'
+            cur = None
+            continue
+        m = re.match(r'^\t"([^"]+)"\.(\w+)$', line)
+        if m:
+            if mode == 'inj':
+                if m.group(1) in paths:
+                    injectors.append(m.group(2))
+            elif cur is not None:
+                cur['includes'].append((paths.get(m.group(1)) or m.group(1)) + '.' + m.group(2))
+            continue
+        if cur is None:
+            continue
+        m = re.match(r'^\tOutputs given (.*):$', line)
+        if m:
+            ins = [] if m.group(1) == 'no inputs' else [abst(x) for x in m.group(1).split(', ')]
+            grp = {'inputs': ins, 'outputs': []}
+            cur['groups'].append(grp)
+            continue
+        if line.startswith('\t\t\tat '):
+            continue
+        if line.startswith('\t\t') and grp is not None:
+            grp['outputs'].append(abst(line))
+    return {'sets': sets, 'injectors': injectors}
+
+
 PANIC_RE = re.compile(r'^(panic: |goroutine \d+ \[|fatal error: )', re.M)
 
 
 class ToolRun:
     """Runs `wire <cmd>` over packages of a batch, chunked, bisecting crashes/hangs."""
 
-    def __init__(self, batch, wire, cmd='gen', chunk=150, timeout=300, args=()):
+    def __init__(self, batch, wire, cmd='gen', chunk=150, timeout=120, args=(), single_timeout=40):
         self.b, self.wire, self.cmd, self.chunk, self.timeout, self.args = batch, wire, cmd, chunk, timeout, list(args)
+        self.single_timeout = single_timeout
         self.obs = {}   # dir -> observation
         self.invocations = 0
 
@@ -284,15 +340,22 @@ class ToolRun:
         return self.obs
 
     def run_chunk(self, dirs):
-        pats = ['./' + d for d in dirs]
+        pats = ['./' + d + ('/...' if self.cmd == 'show' else '') for d in dirs]
         before = {d: self.gen_state(d) for d in dirs}
-        rc, so, se, dt = run([self.wire, self.cmd] + self.args + pats, cwd=self.b.root, timeout=self.timeout)
+        rc, so, se, dt = run([self.wire, self.cmd] + self.args + pats, cwd=self.b.root, limit_mem=True,
+                             timeout=self.timeout if len(dirs) > 1 else self.single_timeout)
         self.invocations += 1
         crashed = rc == -9 or rc == 2 and PANIC_RE.search(se) or (rc not in (0, 1) and self.cmd != 'diff')
         if crashed and len(dirs) > 1:
-            h = len(dirs) // 2
-            self.run_chunk(dirs[:h])
-            self.run_chunk(dirs[h:])
+            # a hang / crash / out-of-memory somewhere in the chunk: isolate it by running every package alone
+            for d in dirs:      # undo partial output of the aborted invocation
+                if before[d] is None and self.gen_state(d) is not None:
+                    try:
+                        os.remove(os.path.join(self.b.root, d, 'wire_gen.go'))
+                    except OSError:
+                        pass
+            with ThreadPoolExecutor(6) as ex:
+                list(ex.map(lambda d: self.run_chunk([d]), dirs))
             return
         self.parse(dirs, rc, so, se, dt, before)
 
@@ -353,6 +416,8 @@ class ToolRun:
                 o['diags'] = [tokenize_diag(c, b, modroot) for b in unattributed]
             if (panic or hang) and len(dirs) == 1:
                 o['stderr_tail'] = se[-1500:]
+            if self.cmd == 'show':
+                o.update(parse_show(c, so))
             self.obs[d] = o
 
 
